@@ -174,7 +174,7 @@ pub fn run_inputs(run: &mut Run, b: &Budget, nontrivial_rule: &str, oracle: Inpu
     run_indexed(
         run,
         "catalogue",
-        &format!("{} fixed documents (text with several fragments and multi-byte punctuation in components mode, ...) under all extensions, none and two sampled subsets; {nontrivial_rule}", CATALOGUE.len()),
+        &format!("{} fixed documents (text with several fragments and multi-byte punctuation in components mode, references named like the alias of an earlier definition, ...) under all extensions, none and two sampled subsets; {nontrivial_rule}", CATALOGUE.len()),
         (CATALOGUE.len() * cfgs.len()) as u64,
         true,
         |i| serde_json::to_value(InputCase { pieces: vec![CATALOGUE[i as usize / 4].to_string()], ext: cfgs[i as usize % 4].0, conv: cfgs[i as usize % 4].1 }).unwrap(),
@@ -195,4 +195,11 @@ pub const CATALOGUE: &[&str] = &[
     ">> [mode]: components\n— -- c\n→ text @b{}",
     ">> [mode]: components\r\n→\r\n→ a\r\n",
     ">> [mode]: components\n…[- é -]…\\…b",
+    // a reference whose name is the alias of an earlier definition (it must not resolve to that definition)
+    "#frying pan|pan{} then #&pan{}",
+    "#pan{} #large frying pan|pan{} #&pan{}",
+    ">> [duplicate]: ref\n#frying pan|pan{} and #pan{}",
+    ">> [mode]: steps\n#frying pan|pan{}\n\nuse the #pan{}",
+    "@olive oil|oil{} then @&oil{} and @oil{} @&oil{}",
+    ">> [duplicate]: ref\n@olive oil|oil{1%l} @oil{2%l}",
 ];
